@@ -23,13 +23,16 @@ class InjSystem(System):
     """System whose half-step propagators are injected (public extension point:
     get_propagators).  props: list of (P1, P2) per step, cycled."""
 
-    def __init__(self, dim, props):
+    def __init__(self, dim, props, start=None):
         super().__init__(np.zeros((dim, dim)))
         self._inj = props
+        self._start = start     # a time-dependent system: asked for another start time it answers with other propagators
 
     def get_propagators(self, dt, start_time, subdiv_limit, epsrel):
+        wrong = self._start is not None and start_time != self._start
         def propagators(step):
-            return self._inj[step % len(self._inj)]
+            p1, p2 = self._inj[step % len(self._inj)]
+            return (p2 + np.eye(len(p2), dtype=p2.dtype), -p1) if wrong else (p1, p2)
         return propagators
 
 
